@@ -9,7 +9,9 @@ new count).
 
 * `HashMap` = insertion-ordered association list with unique keys (`insert` replaces in place).
 * a `Box<dyn Metric>` is either a `CounterMetric` (what `downcast_ref::<CounterMetric>()` recognises) or
-  anything else (gauge, histogram, user metric) carrying an opaque tag.
+  anything else: a `GaugeMetric` (an `f64` bit pattern + description), a `HistogramMetric` (its recorded
+  values + description) or a user metric (its `value()` as an abstract token + description); `value()` and
+  `description()` of each kind are modelled (`MetricVal.value`, `MetricVal.description`, `histStats`).
 * `Instant::now()` = the value of a monotone clock supplied by the caller (`Nat`); the schedule machine
   uses the step index.
 * counts are `Nat` in the schedule machine; the `u64` addition `count + value` is modelled separately by
@@ -29,6 +31,8 @@ new count).
 * user code that runs inside a critical section (`Metric::name()` in `register`, `value()`/`description()` in
   `snapshot`/`to_json`/`print`, `Drop` of a replaced metric) is NOT modelled beyond "it may panic and the
   collector survives" (`MPOISON`); `print` only writes to stdout (one lock acquisition, in `lockSites`).
+* `save_to_file` = `to_json` + serde_json's pretty printer + a file write (`saveToFile`; one acquisition,
+  through `to_json`).
 
 `incAtomic` is the current `increment_counter` (after the `fix:` commit: read-modify-write under ONE lock);
 `Legacy.incSplit` is the pinned-commit code (read under one lock, `drop(inner)`, then `set_counter` under a
@@ -36,10 +40,38 @@ second lock).
 -/
 namespace IB.Metrics
 
-/-- what the collector can tell apart about a stored metric -/
+/-- what `json!(u64)` / `json!(usize)` / `json!(f64)` produce (`serde_json` maps a non-finite `f64` to `null`) -/
+inductive JNum
+  | uint (n : Nat)
+  /-- a FINITE `f64`, by its IEEE-754 bit pattern -/
+  | float (bits : Nat)
+  | null
+  deriving DecidableEq, Repr
+
+/-- a JSON value as far as the collector's export tells values apart -/
+inductive JVal
+  | num (x : JNum)
+  /-- an object whose members are numbers (the histogram's statistics), in source order -/
+  | obj (fields : List (String × JNum))
+  /-- whatever a user `Metric::value()` returned: an abstract token, passed through untouched -/
+  | opaque (tok : String)
+  deriving DecidableEq, Repr
+
+/-- the built-in non-counter metrics and a user `impl Metric`; `f64`s are bit patterns (`Nat < 2^64`) -/
+inductive OtherMetric
+  /-- `GaugeMetric{value, description}` -/
+  | gauge (bits : Nat) (desc : Option String)
+  /-- `HistogramMetric{values, description}` (values in recording order) -/
+  | hist (vals : List Nat) (desc : Option String)
+  /-- a user metric: its `value()` (abstract token) and `description()` -/
+  | user (value : String) (desc : Option String)
+  deriving DecidableEq, Repr
+
+/-- what the collector can tell apart about a stored metric: `downcast_ref::<CounterMetric>()` succeeds
+    or it does not -/
 inductive MetricVal
   | counter (n : Nat)
-  | other (tag : Nat)
+  | other (m : OtherMetric)
   deriving DecidableEq, Repr
 
 /-- `MetricsCollectorInner` -/
@@ -123,6 +155,111 @@ def toJson (c : Collector) : List (String × JsonEntry) :=
   | some s, some e => putJ execKey (.execTime (e - s)) base
   | _, _ => base
 
+/-! ### the VALUES of the export: `Metric::value()` / `description()` of every built-in metric kind
+
+`f64`s travel as bit patterns. Whether an `f64` is finite is arithmetic on the bit pattern (`f64Finite`);
+the histogram's sort is `f64::total_cmp`, an integer comparison of bit patterns (`totalKey`), so `min`, `max`
+and the percentiles are exact `Nat` arithmetic with theorems (sortedness, permutation, ordering of the
+percentiles); `sum` and `mean` are computed on Lean's `Float` (IEEE-754 binary64, the same `+` and `/` as
+Rust's `f64`), executable and compared with the real code case by case but opaque to proofs.
+`Iterator::sum::<f64>()` is a left fold whose start value is the standard library's (0.0 or -0.0 depending
+on the toolchain): it is the parameter `sum0`, read from the running code by the harness. -/
+
+/-- exponent field all ones = ±inf / NaN -/
+def f64Finite (bits : Nat) : Bool := (bits / 2 ^ 52) % 2048 != 2047
+
+/-- `json!(x)` for `x : f64` -/
+def jsonOfF64 (bits : Nat) : JNum := if f64Finite bits then .float bits else .null
+
+def f64OfBits (bits : Nat) : Float := Float.ofBits bits.toUInt64
+def bitsOfF64 (x : Float) : Nat := x.toBits.toNat
+
+/-- `f64::total_cmp` as an unsigned key on the bit pattern (`total_cmp` compares the bits as `i64` after
+    flipping the magnitude bits of negative numbers): sign bit set ↦ all bits flipped, else the sign bit set.
+    So -NaN < -inf < … < -0.0 < +0.0 < … < +inf < +NaN, and two values compare `Equal` iff their bits are equal. -/
+def totalKey (bits : Nat) : Nat := if bits ≥ 2 ^ 63 then 2 ^ 64 - 1 - bits else bits + 2 ^ 63
+
+/-- one step of an insertion sort by `total_cmp` -/
+def insTotal (x : Nat) : List Nat → List Nat
+  | [] => [x]
+  | y :: r => if totalKey x < totalKey y then x :: y :: r else y :: insTotal x r
+
+/-- `sorted.sort_by(f64::total_cmp)` (the `fix:` commit; a total order, so every sort gives this list up
+    to the position of bit-identical values) -/
+def sortTotal (l : List Nat) : List Nat := l.foldl (fun acc x => insTotal x acc) []
+
+/-- pinned-commit comparator `|a, b| a.partial_cmp(b).unwrap_or(Ordering::Equal)`, with `none` = NaN and the
+    numbers simplified to integers: NaN compares `Equal` to everything, which is not transitive
+    (`Props/C16.lean: legacy_hist_comparator_not_a_total_order`), and `slice::sort_by` may panic on such a
+    comparator — with ~20+ recorded values and a NaN among them it did, inside `to_json`/`snapshot`/`print`. -/
+def Legacy.cmpOrEqual : Option Int → Option Int → Ordering
+  | some a, some b => compare a b
+  | _, _ => .eq
+
+/-- `HistogramStats` (floats as bit patterns) -/
+structure HistStats where
+  count : Nat
+  sum : Nat
+  mean : Nat
+  min : Nat
+  max : Nat
+  p50 : Nat
+  p95 : Nat
+  p99 : Nat
+  deriving DecidableEq, Repr
+
+/-- the three percentile positions `count / 2`, `count * 95 / 100`, `count * 99 / 100` (`usize` arithmetic) -/
+def pctIdx (count : Nat) : Nat × Nat × Nat := (count / 2, count * 95 / 100, count * 99 / 100)
+
+/-- `HistogramMetric::stats()`; the empty histogram is `HistogramStats::default()` (all zero).
+    `sum` is `Iterator::sum` (a left fold from `sum0`) over the SORTED values, `mean = sum / count as f64`. -/
+def histStats (sum0 : Nat) (vals : List Nat) : HistStats :=
+  if vals.isEmpty then ⟨0, 0, 0, 0, 0, 0, 0, 0⟩ else
+  let sorted := sortTotal vals
+  let count := sorted.length
+  let sum := (sorted.map f64OfBits).foldl (· + ·) (f64OfBits sum0)
+  let mean := sum / Float.ofNat count
+  let ix := pctIdx count
+  ⟨count, bitsOfF64 sum, bitsOfF64 mean, sorted.getD 0 0, sorted.getD (count - 1) 0, sorted.getD ix.1 0,
+    sorted.getD ix.2.1 0, sorted.getD ix.2.2 0⟩
+
+/-- `HistogramMetric::value()`: the `json!({...})` object, members in source order -/
+def histValue (sum0 : Nat) (vals : List Nat) : JVal :=
+  let s := histStats sum0 vals
+  .obj [("count", .uint s.count), ("sum", jsonOfF64 s.sum), ("mean", jsonOfF64 s.mean),
+        ("min", jsonOfF64 s.min), ("max", jsonOfF64 s.max), ("p50", jsonOfF64 s.p50),
+        ("p95", jsonOfF64 s.p95), ("p99", jsonOfF64 s.p99)]
+
+/-- `Metric::value()` -/
+def MetricVal.value (sum0 : Nat) : MetricVal → JVal
+  | .counter n => .num (.uint n)
+  | .other (.gauge b _) => .num (jsonOfF64 b)
+  | .other (.hist vs _) => histValue sum0 vs
+  | .other (.user v _) => .opaque v
+
+/-- `Metric::description()` (`CounterMetric` keeps the trait's default `None`) -/
+def MetricVal.description : MetricVal → Option String
+  | .counter _ => none
+  | .other (.gauge _ d) => d
+  | .other (.hist _ d) => d
+  | .other (.user _ d) => d
+
+def execDesc : String := "Total pipeline execution time in milliseconds"
+
+/-- the `"value"` member of an exported entry -/
+def JsonEntry.value (sum0 : Nat) : JsonEntry → JVal
+  | .metric v => v.value sum0
+  | .execTime d => .num (.uint d)
+
+/-- the `"description"` member of an exported entry (absent when `None`) -/
+def JsonEntry.description : JsonEntry → Option String
+  | .metric v => v.description
+  | .execTime _ => some execDesc
+
+/-- `save_to_file(path)`: `to_json()`, `to_string_pretty`, written to the file. `ser` is serde_json's
+    serialiser (external); its law — a parser reads back what was written — is a theorem hypothesis. -/
+def saveToFile {σ : Type} (ser : List (String × JsonEntry) → σ) (c : Collector) : σ := ser (toJson c)
+
 /-- `u64` -/
 def u64Bound : Nat := 2 ^ 64
 
@@ -158,12 +295,14 @@ def Legacy.incSplit (k : String) (v : Nat) (c : Collector) : Collector × Option
   | some (.other _) => (c, none)
   | none => (insertSec k (.counter v) c, none)
 
-/-- lock acquisitions (`.lock()`) per method of `MetricsCollector` in the current source, sorted by name;
-    `register_all` (a loop over `register`) and `save_to_file` (`to_json` + file write) take none themselves.
-    Compared with a scan of `src/metrics.rs` on every run (`LOCKSITES`). -/
+/-- guard acquisitions of the collector's mutex during ONE call of each public method (sorted by label;
+    `increment_counter` in the three states it distinguishes; `register_all` of two metrics is a loop over
+    `register`; `save_to_file` locks through `to_json`). Compared on every run with the acquisitions COUNTED
+    inside src/metrics.rs by the `verif-hooks` wrapper while each method runs once (`LOCKSITES`). -/
 def lockSites : List (String × Nat) :=
-  [("elapsed", 1), ("increment_counter", 1), ("print", 1), ("record_end", 1), ("record_start", 1),
-   ("register", 1), ("set_counter", 1), ("snapshot", 1), ("to_json", 1)]
+  [("elapsed", 1), ("increment_counter/absent", 1), ("increment_counter/counter", 1),
+   ("increment_counter/other", 1), ("print", 1), ("record_end", 1), ("record_start", 1), ("register", 1),
+   ("register_all/2", 2), ("save_to_file", 1), ("set_counter", 1), ("snapshot", 1), ("to_json", 1)]
 
 /-- which `increment_counter` is linked -/
 inductive Impl
@@ -340,5 +479,53 @@ def runCollectTwice {γ χ ε ρ} (build : γ → Except ε χ) (exec : χ → E
   let r1 := runCollect build exec t0 t1 p
   let r2 := runCollect build exec t2 t3 r1.2
   (r1.1, r2.1, r2.2)
+
+/-! ## the slot holds a CLONE of the user's handle (`Arc`): one shared cell, seen by both
+
+`Pipe.metrics : Option Collector` above is a VALUE: good for "what does the attached collector look like
+after the run", but it cannot say that the handle the USER kept sees the stamps, nor what happens when the
+slot is emptied (`take_metrics`) or the user's handle is used WHILE the engine runs. `SharedPipe` models the
+one `MetricsCollectorInner` both handles point to, and whether the slot is occupied. `record_metrics_start`
+/ `_end` take the pipeline lock, look at the slot and — if occupied — call `record_start` / `record_end`
+on the shared cell; the engine runs between them without holding either lock, so other threads (or the
+pipeline's own closures) may call anything on the handle or `take_metrics` on the pipeline meanwhile. -/
+
+structure SharedPipe (γ : Type) where
+  graph : γ
+  /-- `metrics: Option<MetricsCollector>` of the pipeline is `Some(clone of the user's handle)` -/
+  attached : Bool
+  /-- the one `MetricsCollectorInner` behind the user's handle and the slot's clone -/
+  cell : Collector
+
+/-- what another holder of the handle / of the pipeline does while the engine runs -/
+inductive MidEvent
+  /-- any call on the user's handle -/
+  | userOp (op : Op)
+  /-- `Pipeline::take_metrics()` -/
+  | take
+  deriving DecidableEq, Repr
+
+def SharedPipe.stampStart {γ} (now : Nat) (p : SharedPipe γ) : SharedPipe γ :=
+  if p.attached then { p with cell := recordStart now p.cell } else p
+def SharedPipe.stampEnd {γ} (now : Nat) (p : SharedPipe γ) : SharedPipe γ :=
+  if p.attached then { p with cell := recordEnd now p.cell } else p
+
+def SharedPipe.mid {γ} (now : Nat) (p : SharedPipe γ) : MidEvent → SharedPipe γ
+  | .userOp op => { p with cell := applyOp now op p.cell }
+  | .take => { p with attached := false }
+
+/-- `Runner::run_collect` on the shared cell; `mid` = what happens between the two stamps -/
+def runCollectShared {γ χ ε ρ} (build : γ → Except ε χ) (exec : χ → Except ε ρ) (t0 t1 : Nat)
+    (mid : List MidEvent) (p : SharedPipe γ) : Except ε ρ × SharedPipe γ :=
+  let p1 := p.stampStart t0
+  match build p1.graph with
+  | .error e => (.error e, p1)
+  | .ok chain =>
+    let r := exec chain
+    let p2 := mid.foldl (SharedPipe.mid t0) p1
+    (r, p2.stampEnd t1)
+
+/-- the value view of a shared pipeline -/
+def SharedPipe.toPipe {γ} (p : SharedPipe γ) : Pipe γ := ⟨p.graph, if p.attached then some p.cell else none⟩
 
 end IB.Metrics
